@@ -25,7 +25,9 @@ use verif_harness::rec::{wops_coq, Rec, Wop};
 use verif_harness::*;
 
 #[allow(dead_code)]
-#[path = "/repo/crates/cli/src/builtins.rs"]
+// relative to this file: /verif/harness/src/bin -> /repo; under VERIF_REPO the harness is copied to <alt>/harness and
+// tools/checks/c16.py links <alt>/repo to the worktree, so the same relative path reaches the worktree's file
+#[path = "../../../../repo/crates/cli/src/builtins.rs"]
 mod cli_builtins;
 
 // ------------------------------------------------------------------ Coq printing of texts
@@ -705,6 +707,8 @@ fn cli_cases(out: &mut Out, rng: &mut Rng, cli: &Path, n: usize, work: &Path, us
     json!({"cli_projects": n, "cli_failed": failed, "module_cases": emitted, "node_used": values.is_some()})
 }
 
+/// user-defined directives named like the nitrogql-only `nitrogql_ts_type` (same prefix / containing it / extending it)
+const LOOKALIKE_DIRECTIVES: &str = "directive @nitrogql_cache(ttl: Int = 60) repeatable on FIELD_DEFINITION | OBJECT | SCALAR | ARGUMENT_DEFINITION | ENUM_VALUE\n\"not the built-in\"\ndirective @nitrogql_ts_type2 repeatable on FIELD_DEFINITION | OBJECT | SCALAR | ARGUMENT_DEFINITION | ENUM_VALUE\ndirective @my_nitrogql_ts_type(resolverInput: String) repeatable on FIELD_DEFINITION | OBJECT | SCALAR | ARGUMENT_DEFINITION | ENUM_VALUE\n";
 /// directives that may stand next to @model (all valid on object types and their fields)
 const MIX_DIRECTIVES: &str = "directive @da on OBJECT | FIELD_DEFINITION\ndirective @db(x: Int) repeatable on OBJECT | FIELD_DEFINITION\ndirective @dc on OBJECT | FIELD_DEFINITION\ndirective @dx on OBJECT\ndirective @dy on OBJECT\n";
 /// `model` among 2-3 other directive applications, at the first, a middle or the last position: removing it must keep
@@ -781,6 +785,32 @@ fn server_source(rng: &mut Rng, plugin: bool, mode: Mode) -> String {
         } else { o.push_str(line); o.push('\n'); }
     }
     src = o;
+    // user-defined directives whose names merely resemble the nitrogql-only one: they are part of the checked schema and
+    // must survive, definition and every application (objects, fields, arguments, enum values, scalars)
+    {
+        let mut o = String::new();
+        let mut kind = "";
+        let mut used = false;
+        for line in src.lines() {
+            if !line.starts_with(' ') && !line.starts_with('}') { kind = line.split(' ').next().unwrap_or(""); }
+            let is_desc = line.trim_start().starts_with('"');
+            let mut l = line.to_string();
+            if !is_desc && rng.chance(1, 4) {
+                let d = match rng.below(4) { 0 => "@nitrogql_cache".to_string(), 1 => format!("@nitrogql_cache(ttl: {})", rng.below(9)), 2 => "@nitrogql_ts_type2".to_string(), _ => "@my_nitrogql_ts_type(resolverInput: \"x\")".to_string() };
+                if line.starts_with("scalar ") { l = format!("{l} {d}"); used = true; }
+                else if line.starts_with("type ") && line.ends_with(" {") { l = l.replacen(" {", &format!(" {d} {{"), 1); used = true; }
+                else if (kind == "type" || kind == "interface") && line.starts_with("  ") && line.contains(": ") {
+                    if line.contains("): ") && rng.chance(1, 2) { l = l.replacen("): ", &format!(" {d}): "), 1); } else { l = format!("{l} {d}"); }
+                    used = true;
+                }
+                else if kind == "enum" && line.starts_with("  ") && !line.contains(':') { l = format!("{l} {d}"); used = true; }
+            }
+            o.push_str(&l); o.push('\n');
+        }
+        src = o;
+        if used || rng.chance(1, 2) { src.push_str(LOOKALIKE_DIRECTIVES); }
+        else { src = src.replace(" @nitrogql_cache", ""); }
+    }
     if plugin {
         src.push_str(MIX_DIRECTIVES);
         for e in &extensions { src.push_str(e); src.push('\n'); }
@@ -846,6 +876,9 @@ fn main() {
     }
 
     server_case(&mut out, &format!("{MODEL_ORDER_CORPUS}{MIX_DIRECTIVES}"), true, "corpus");
+    for plugin in [false, true] {
+        server_case(&mut out, &format!("scalar Date @nitrogql_ts_type(resolverInput: \"string\", resolverOutput: \"string\", operationInput: \"string\", operationOutput: \"string\") @nitrogql_cache @nitrogql_ts_type2\nscalar Url @my_nitrogql_ts_type\nenum E {{\n  A @nitrogql_cache(ttl: 1)\n  B\n}}\ntype Query @nitrogql_cache {{\n  a(x: Int @nitrogql_ts_type2, y: E = A @my_nitrogql_ts_type(resolverInput: \"q\")): Date @nitrogql_cache(ttl: 5) @deprecated\n  u: Url\n}}\n{LOOKALIKE_DIRECTIVES}"), plugin, "corpus");
+    }
     // 1. print_string: every string over an adversarial alphabet up to a length, then random longer ones
     let alpha: Vec<char> = vec!['a', '"', '\\', '\n', '\r', '`', '$', '{', ' ', '\u{7}', '\u{e9}'];
     let maxlen = if thorough { 5 } else { 2 };
